@@ -31,4 +31,17 @@ def keystream (E : Bytes → Bytes) (nonce : UInt64) (n : Nat) : Bytes :=
 def stream (E : Bytes → Bytes) (nonce : UInt64) (data : Bytes) : Bytes :=
   List.zipWith (· ^^^ ·) data (keystream E nonce ((data.length + 15) / 16))
 
+/-! ### The same keystream, entered at byte position `pos` (for incremental use)
+
+`Proofs/AesCtr.lean: stream_append` proves `stream E nonce (a ++ b) = stream E nonce a ++ streamAt E nonce a.length b`,
+so `streamAt` is not a second specification but the tail of the first. -/
+
+/-- keystream bytes `pos, pos+1, …, pos+n-1` -/
+def keystreamFrom (E : Bytes → Bytes) (nonce : UInt64) (pos n : Nat) : Bytes :=
+  (((List.range' (pos / 16) ((pos % 16 + n + 15) / 16)).flatMap (keystreamBlock E nonce)).drop (pos % 16)).take n
+
+/-- `data ⊕` keystream bytes `pos … pos + data.length - 1` -/
+def streamAt (E : Bytes → Bytes) (nonce : UInt64) (pos : Nat) (data : Bytes) : Bytes :=
+  List.zipWith (· ^^^ ·) data (keystreamFrom E nonce pos data.length)
+
 end Percival.Spec.Ctr
